@@ -23,7 +23,7 @@ SPEC = {
             "incompatible edit, among them every one-component variation of the matcher sets) and Expire whose broadcasts are captured into a pool, scripted channel delivering pool entries "
             "(late, duplicated, reordered, dropped, batched 1-3 with last-record-wins, crafted versions around the tie and retention "
             "boundaries, oversized), full-state push (MarshalBinary -> Merge), GC, snapshot reload, Query (QIDs/QSince/QState/QMatches) "
-            "and Mutes; instants on a 1 s grid; one third of the cases are convergence cases (distinct update instants per id, retention "
+            "and Mutes; instants on a 1 s grid; a quarter of the cases with a MaxSilences limit of 1-3 (Set answers `limit`, Merge ignores it); every record a Merge accepted is counted against the re-broadcasts (merge_relays_accepted); one third of the cases are convergence cases (distinct update instants per id, retention "
             "1000 s) that end by delivering the whole pool to every instance in its own order and comparing the instances; "
             "a case is non-trivial when it hits a tagged branch (merge:newer/older/tie/duplicate/past-retention/revival/oversized, "
             "set:in-place/replace/silently-dropped, expire:*, gc:removed, converge:checked, mutes:*); distinct = distinct hash of the op lines",
